@@ -1413,8 +1413,10 @@ class DiameterMessage:
 
         #: Gets all DiameterMessage attributes based on DiameterAVP objects.
         avps_keys = list()
-        for avp_key in self.__dict__.keys():
-            if "_avp" in avp_key and avp_key != "_avps":
+        for avp_key, item in self.__dict__.items():
+            #: By what the attribute holds, not by its name: update_key()
+            #: may have renamed it to anything.
+            if isinstance(item, DiameterAVP):
                 avps_keys.append(avp_key)
 
         #: Goes over each DiameterMessage attribute based on DiameterAVP 
